@@ -291,69 +291,80 @@ def target_arg(call):
 
 
 def check_combined(ck, tu):
+    """PHASE-LENGTH-SUM: the combined variants are evaluated on their integer skeleton for every (size S <= total T,
+    overhang O in {-1, 0..T}, min_seq): the unguarded phase merges min(S, T - O) elements at target (skipped when a
+    sequence is empty), the guarded phase continues where it stopped with the rest, and target + S is returned."""
+    from engine import skel
     for name in ("multiway_merge_3_combined", "multiway_merge_4_combined", "multiway_merge_loser_tree_combined"):
         for fn in tu.some(qname=NS + name):
-            sizep = fn.params[3]["did"]
-            targetp = fn.params[2]["did"]
+            sizep, targetp = fn.params[3]["did"], fn.params[2]["did"]
+            K = 3 if "3" in name else 4 if "4" in name else 5
             calls = [x for x in ir.walk(fn.body) if "callee" in x and x["k"] == "CallExpr"]
             ung = [c for c in calls if c["callee"]["name"] in UNGUARDED_PHASE and
                    ("unguarded" in c["callee"]["name"] or "unguarded_iterator" in (c["callee"].get("targs") or [""])[0])]
             gua = [c for c in calls if c["callee"]["name"] in GUARDED_PHASE and c not in ung]
-            ck.require(len(ung) == 1 and gua, "%s: could not identify the unguarded and guarded phases" % fn.loc)
+            ck.require(len(ung) >= 1 and gua, "%s: could not identify the unguarded and guarded phases" % fn.loc)
+            ung_ids, gua_ids = {c["id"] for c in ung}, {c["id"] for c in gua}
             where = fn.qname + ("<%s>" % fn.targs[0] if name.endswith("tree_combined") else "")
-            U = ref_of(size_arg(ung[0]))
-            Vs = set(ref_of(size_arg(c)) for c in gua)
-            if U is None or len(Vs) != 1 or None in Vs:
-                raise dtable.Undecidable("%s: phase lengths are not plain variables" % fn.loc)
-            V = Vs.pop()
-            # U = min(size, ...)
-            ud = [x for x in ir.walk(fn.body) if x["k"] == "VarDecl" and x["did"] == U]
-            okU = False
-            if ud and kids(ud[0]):
-                m = match.call_named(kids(ud[0])[0], ("min",))
-                okU = bool(m and sizep in [ref_of(a) for a in kids(m)])
-            if not okU:
-                ck.violation("PHASE-LENGTH-SUM", fn.qname, "unguarded-cap", "the unguarded phase length is not capped by the requested size (min(size, ...))", fn.loc)
-                continue
-            # the if-statement holding the unguarded call
-            par = fn.parent(ung[0])
-            node = ung[0]
-            ifs = None
-            while par is not None:
-                if par["k"] == "IfStmt":
-                    ifs = (par, any(y is node for y in ir.walk(kids(par)[1])))
-                    break
-                node, par = par, fn.parent(par)
-            ck.require(ifs is not None and ifs[1], "%s: unguarded phase is not in the then-branch of an if" % fn.loc)
-            then_b, else_b = kids(ifs[0])[1], kids(ifs[0])[2]
-            okall = True
-            for br, want, what in ((then_b, {sizep: 1, U: -1}, "size - unguarded_size"), (else_b, {sizep: 1}, "size")):
-                asg = [match.binop(x, ("=",)) for x in ir.walk(br) if match.binop(x, ("=",)) and ref_of(match.binop(x, ("=",))[1]) == V] if br else []
-                if len(asg) != 1:
-                    ck.violation("PHASE-LENGTH-SUM", fn.qname, "assign:" + what.replace(" ", ""), "guarded phase length is not set exactly once in the %s branch"
-                                 % ("unguarded" if br is then_b else "fallback"), fn.nloc(ifs[0]))
-                    okall = False
-                    continue
-                got = lin(asg[0][2])
-                if got != want:
-                    ck.violation("PHASE-LENGTH-SUM", fn.qname, "value:" + what.replace(" ", ""),
-                                 "the two phases must emit exactly `size` elements: guarded length must be %s, is %s"
-                                 % (what, dtable.describe(asg[0][2])), fn.nloc(asg[0][2]))
-                    okall = False
-            # target chaining: guarded phase starts where the unguarded one stopped
-            tv = set(ref_of(target_arg(c)) for c in gua)
-            chain = False
-            if len(tv) == 1 and None not in tv:
-                t = tv.pop()
-                a_then = [match.binop(x, ("=",)) for x in ir.walk(then_b) if match.binop(x, ("=",)) and ref_of(match.binop(x, ("=",))[1]) == t]
-                a_else = [match.binop(x, ("=",)) for x in ir.walk(else_b) if match.binop(x, ("=",)) and ref_of(match.binop(x, ("=",))[1]) == t] if else_b else []
-                chain = len(a_then) == 1 and strip_casts(a_then[0][2]) is ung[0] and len(a_else) == 1 and ref_of(a_else[0][2]) == targetp \
-                    and ref_of(target_arg(ung[0])) == targetp
-            if not chain:
-                ck.violation("PHASE-LENGTH-SUM", fn.qname, "target-chain", "the guarded phase does not continue at the position where the unguarded phase stopped", fn.loc)
-                okall = False
-            if okall:
-                ck.ok("PHASE-LENGTH-SUM", where, "unguarded_size = min(size, ...); guarded length = size - unguarded_size (size when skipped); targets chained")
+            bad = None
+            BASE = 1000
+            npts = 0
+            for S in range(0, 5):
+                for T in range(max(S, 1), 7):
+                    for O in [-1] + list(range(0, T + 1)):
+                        for m in range(K if "3" in name else 1):
+                            phases = []
+
+                            def event(e, sk, O=O, T=T, m=m):
+                                if "callee" not in e:
+                                    return NotImplemented
+                                nm = e["callee"]["name"]
+                                if nm == "prepare_unguarded":
+                                    key = sk.lvalue(kids(e)[-1])
+                                    if key is None:
+                                        raise dtable.Undecidable("%s: min_sequence argument not understood" % fn.loc)
+                                    sk.store(key, m)
+                                    return O
+                                if nm in ("iterpair_size",):
+                                    return T
+                                if nm == "accumulate":
+                                    return T
+                                if e["id"] in ung_ids or e["id"] in gua_ids:
+                                    t_, n_ = sk.ev(target_arg(e)), sk.ev(size_arg(e))
+                                    if not isinstance(t_, int) or not isinstance(n_, int):
+                                        raise dtable.Undecidable("%s: target / length of a merge phase not understood at line %s" % (fn.loc, e.get("l")))
+                                    phases.append(("U" if e["id"] in ung_ids else "G", t_, n_, e))
+                                    return t_ + max(n_, 0)
+                                return NotImplemented
+                            # one sequence carries the whole input: the total is returned by iterpair_size once
+                            sk = skel.Skel(fn, {sizep: S, targetp: BASE, fn.params[0]["did"]: 0, fn.params[1]["did"]: 1}, None, event, max_iter=16)
+                            try:
+                                sk.run(kids(fn.body))
+                                ret = None
+                            except skel.Return as r_:
+                                ret = r_.v
+                            npts += 1
+                            if O == -1:
+                                want = [("G", BASE, S)]
+                            else:
+                                u = min(S, T - O)
+                                want = [("U", BASE, u), ("G", BASE + u, S - u)]
+                            got = [(k_, t_, n_) for k_, t_, n_, _ in phases if not (k_ == "U" and n_ == 0 and O == -1)]
+                            if (got != want or ret != BASE + S) and bad is None:
+                                bad = (S, T, O, m, got, want, ret, phases[0][3] if phases else fn.body)
+            if bad:
+                S, T, O, m, got, want, ret, node = bad
+
+                def show(l):
+                    return ", ".join("%s %d at target+%d" % ("unguarded" if k_ == "U" else "guarded", n_, t_ - BASE) for k_, t_, n_ in l) or "nothing"
+                ck.violation("PHASE-LENGTH-SUM", fn.qname, "phases",
+                             "for size %d of %d elements with %s the phases merge {%s} and target+%s is returned; they must merge {%s} and return target+%d "
+                             "(unguarded length min(size, total - overhang), the guarded phase continues where it stopped with the rest)"
+                             % (S, T, "an empty sequence" if O == -1 else "overhang %d" % O, show(got), (ret - BASE) if isinstance(ret, int) else "?", show(want), S),
+                             fn.nloc(node))
+            else:
+                ck.ok("PHASE-LENGTH-SUM", where, "%d points (size, total, overhang, min_seq): unguarded min(size, total - overhang) at target, guarded rest behind it, "
+                      "target + size returned" % npts)
             if name == "multiway_merge_3_combined":
                 check_tail_order(ck, fn, gua)
             if name == "multiway_merge_4_combined":
